@@ -14,7 +14,11 @@ func (c08) Count(tier string) int {
 	return 400
 }
 
-func (c08) Gen(rng *rand.Rand, tier string, idx int) Case {
+func (p c08) Gen(rng *rand.Rand, tier string, idx int) Case {
+	return maybeReset(rng, p.gen0(rng, tier, idx))
+}
+
+func (c08) gen0(rng *rand.Rand, tier string, idx int) Case {
 	var c Case
 	if idx%12 == 11 {
 		p := [][2]int64{{2, 1}, {3, 2}, {5, 5}, {2, 3}, {4, 1}}[rng.Intn(5)]
